@@ -45,6 +45,26 @@ theorem parse_emit_v2_ipv4 (pr : Proto) (s d : Bytes) (sp dp : Nat) (hs : s.leng
     simp [encV2, parseV2, sig, Gen.l4proxyprotocol_headerV2Prefix, toBE, be16, List.getD, beNat] <;>
     simp [toBE, beNat] at e1 e2 <;> omega
 
+theorem list16 (s : Bytes) (hs : s.length = 16) :
+    ∃ a0 a1 a2 a3 a4 a5 a6 a7 a8 a9 a10 a11 a12 a13 a14 a15, s = [a0, a1, a2, a3, a4, a5, a6, a7, a8, a9, a10, a11, a12, a13, a14, a15] := by
+  match s, hs with
+  | [a0, a1, a2, a3, a4, a5, a6, a7, a8, a9, a10, a11, a12, a13, a14, a15], _ =>
+    exact ⟨a0, a1, a2, a3, a4, a5, a6, a7, a8, a9, a10, a11, a12, a13, a14, a15, rfl⟩
+
+set_option maxRecDepth 4000 in
+/-- the same for IPv6 addresses (address block of 36 bytes) -/
+theorem parse_emit_v2_ipv6 (pr : Proto) (s d : Bytes) (sp dp : Nat) (hs : s.length = 16) (hd : d.length = 16)
+    (hsp : sp < 65536) (hdp : dp < 65536) (rest : Bytes) :
+    parseV2 (encV2 ⟨pr, ⟨s, sp⟩, ⟨d, dp⟩⟩ ++ rest) = some (.proxy ⟨pr, ⟨s, sp⟩, ⟨d, dp⟩⟩ (encV2 ⟨pr, ⟨s, sp⟩, ⟨d, dp⟩⟩).length) := by
+  obtain ⟨a0, a1, a2, a3, a4, a5, a6, a7, a8, a9, a10, a11, a12, a13, a14, a15, rfl⟩ := list16 s hs
+  obtain ⟨b0, b1, b2, b3, b4, b5, b6, b7, b8, b9, b10, b11, b12, b13, b14, b15, rfl⟩ := list16 d hd
+  have e1 := toBE2 sp hsp
+  have e2 := toBE2 dp hdp
+  cases pr <;>
+    simp [encV2, parseV2, sig, Gen.l4proxyprotocol_headerV2Prefix, toBE, be16, List.getD, beNat] <;>
+    simp [toBE, beNat] at e1 e2 <;> omega
+
+
 /-- the proxy_protocol matcher recognises what the proxy handler emits (sender and receiver agree on the signature) -/
 theorem encV2_sig (h : Hdr) : ∃ tail, encV2 h = sig ++ tail := by
   by_cases h4 : h.src.ip.length = 4 ∧ h.dst.ip.length = 4
